@@ -33,6 +33,7 @@ class Suite:
     in_type = ''
     out_type = ''
     eq_dec = ''
+    eqb = ''
     model = ''
     shard = 250
 
